@@ -219,9 +219,33 @@ def quoted_cases():
     return cases
 
 
+def sentinel_cases():
+    """lines whose text is a word the implementation uses internally for something else (end of input, token kinds, 'nothing'), on the last line
+    with and without a line break; an unknown-language header as the n-th fault (n around the error limit); two ragged tables in one document"""
+    cases = []
+    pres = [["Feature: f", " Scenario: s", "  Given x"], ["Feature: f", " Scenario: s", "  Given x", "   | a |"], ["Feature: f", " Scenario: s", "  Given x", '   """', "   open"], ["Feature: f"], []]
+    for pre in pres:
+        for word in ("EOF", "#EOF", "None", "Other", "Empty", "TableRow", "False", "0", "null", "\x00"):
+            for ind in ("", "    "):
+                for end in ("", "\n"):
+                    cases.append({"sub": "text", "label": "sentinel-word", "text": "\n".join(pre + [ind + word]) + end})
+    for n in range(0, 14):
+        for tail in (["more garbage"], ["Feature: f", " bad"], []):
+            cases.append({"sub": "text", "label": "unknown-language-as-nth-fault", "text": "\n".join(["stray %d" % i for i in range(n)] + ["#language: xx-unknown"] + tail) + "\n"})
+            cases.append({"sub": "text", "label": "unknown-language-as-nth-fault", "text": "\n".join(["@a b%d" % i for i in range(n)] + ["  # language: zz"] + tail) + "\n"})
+    for k in (2, 3, 12):
+        tables = []
+        for i in range(k):
+            tables += [" Scenario: s%d" % i, "  Given x", "   | a | b |", "   | c |"]
+        cases.append({"sub": "text", "label": "several-ragged-tables", "text": "\n".join(["Feature: f"] + tables) + "\n"})
+        cases.append({"sub": "text", "label": "several-ragged-tables", "text": "\n".join(["Feature: f", " Scenario Outline: o", "  Given <a>"] + ["  Examples:\n   | a | b |\n   | c |"] * k) + "\n"})
+    return cases
+
+
 def unit_quoted(a):
     stats = Stats()
     sweep(stats, quoted_cases(), check_text)
+    sweep(stats, sentinel_cases(), check_text)
     return stats
 
 
